@@ -12980,13 +12980,13 @@ func (p *PathAttributeMpReachNLRI) DecodeFromBytes(data []byte, options ...*Mars
 	return nil
 }
 
-func (p *PathAttributeMpReachNLRI) Serialize(options ...*MarshallingOption) ([]byte, error) {
-	afi := p.AFI
-	safi := p.SAFI
-	nexthopAddrs := make([]net.IP, 0, 2)
-	nexthoplen := 0
+// nexthopEncoding returns the next hop addresses the way Serialize writes
+// them, the number of route distinguisher octets in front of each, and the
+// value of the next hop length field.
+func (p *PathAttributeMpReachNLRI) nexthopEncoding() (nexthopAddrs []net.IP, offset int, nexthoplen int) {
+	nexthopAddrs = make([]net.IP, 0, 2)
 
-	isNexthopIPv6 := p.Nexthop.IsValid() && (afi == AFI_IP6 || p.Nexthop.Is6())
+	isNexthopIPv6 := p.Nexthop.IsValid() && (p.AFI == AFI_IP6 || p.Nexthop.Is6())
 	if isNexthopIPv6 {
 		// if nexthop is v4, it needs to be serialized as IPv4-mapped IPv6 address.
 		n := p.Nexthop.As16()
@@ -13002,14 +13002,50 @@ func (p *PathAttributeMpReachNLRI) Serialize(options ...*MarshallingOption) ([]b
 		nexthoplen = BGP_ATTR_NHLEN_IPV4
 	}
 
-	offset := 0
-	switch safi {
+	switch p.SAFI {
 	case SAFI_MPLS_VPN:
 		offset = BGP_ATTR_NHLEN_VPN_RD
 		nexthoplen += len(nexthopAddrs) * offset
 	case SAFI_FLOW_SPEC_VPN, SAFI_FLOW_SPEC_UNICAST:
 		nexthoplen = 0
 	}
+	return nexthopAddrs, offset, nexthoplen
+}
+
+// mpAttrLen is the encoded length of an MP_REACH_NLRI / MP_UNREACH_NLRI
+// attribute whose value has fixedLen octets in front of NLRI that each carry
+// an ADD-PATH path identifier.
+func mpAttrLen(flags BGPAttrFlag, fixedLen int, nlris []PathNLRI, options []*MarshallingOption) int {
+	l := fixedLen
+	for _, n := range nlris {
+		l += 4 + n.NLRI.Len(options...)
+	}
+	if flags&BGP_ATTR_FLAG_EXTENDED_LENGTH != 0 || l > 255 {
+		return 4 + l
+	}
+	return 3 + l
+}
+
+// Len returns the number of octets Serialize emits under the given options.
+// The length cached in the attribute header is the one of the form without
+// ADD-PATH path identifiers when the attribute comes from
+// NewPathAttributeMpReachNLRI (a constructor cannot know the options of the
+// session the attribute will be sent on), so the form with path identifiers is
+// measured here. Without such an option (this is how the decoders call it) the
+// cached header length is returned.
+func (p *PathAttributeMpReachNLRI) Len(options ...*MarshallingOption) int {
+	if !IsAddPathEnabled(false, NewFamily(p.AFI, p.SAFI), options) || IsMRTSerialization(options) {
+		return p.PathAttribute.Len(options...)
+	}
+	_, _, nexthoplen := p.nexthopEncoding()
+	// AFI(2) + SAFI(1) + NexthopLength(1) + Nexthop + Reserved(1)
+	return mpAttrLen(p.Flags, 5+nexthoplen, p.Value, options)
+}
+
+func (p *PathAttributeMpReachNLRI) Serialize(options ...*MarshallingOption) ([]byte, error) {
+	afi := p.AFI
+	safi := p.SAFI
+	nexthopAddrs, offset, nexthoplen := p.nexthopEncoding()
 
 	var buf []byte
 	onlyNexthop := IsMRTSerialization(options)
@@ -13194,6 +13230,16 @@ func (p *PathAttributeMpUnreachNLRI) DecodeFromBytes(data []byte, options ...*Ma
 		p.Value = append(p.Value, PathNLRI{NLRI: prefix, ID: id})
 	}
 	return nil
+}
+
+// Len returns the number of octets Serialize emits under the given options;
+// see PathAttributeMpReachNLRI.Len.
+func (p *PathAttributeMpUnreachNLRI) Len(options ...*MarshallingOption) int {
+	if !IsAddPathEnabled(false, NewFamily(p.AFI, p.SAFI), options) {
+		return p.PathAttribute.Len(options...)
+	}
+	// AFI(2) + SAFI(1)
+	return mpAttrLen(p.Flags, 3, p.Value, options)
 }
 
 func (p *PathAttributeMpUnreachNLRI) Serialize(options ...*MarshallingOption) ([]byte, error) {
@@ -16670,7 +16716,11 @@ func (msg *BGPUpdate) DecodeFromBytes(data []byte, options ...*MarshallingOption
 				strongestError = e
 			}
 		}
-		pLen := uint16(p.Len(options...))
+		// The attribute's own header (flags, extended length bit, length) says
+		// how far to advance; Len() without options is exactly that, whereas
+		// Len(options...) of the MP attributes measures what Serialize would
+		// emit under the options.
+		pLen := uint16(p.Len())
 		if pLen > pathlen {
 			e = NewMessageErrorWithErrorHandling(
 				eCode, BGP_ERROR_SUB_ATTRIBUTE_LENGTH_ERROR, data, ERROR_HANDLING_TREAT_AS_WITHDRAW, nil, "path attribute length exceeds path attributes boundary")
@@ -16680,7 +16730,7 @@ func (msg *BGPUpdate) DecodeFromBytes(data []byte, options ...*MarshallingOption
 			return strongestError
 		}
 		pathlen -= pLen
-		if len(data) < p.Len(options...) {
+		if len(data) < p.Len() {
 			e = NewMessageErrorWithErrorHandling(
 				eCode, BGP_ERROR_SUB_ATTRIBUTE_LENGTH_ERROR, data, ERROR_HANDLING_TREAT_AS_WITHDRAW, nil, "attribute length is short")
 			if e.(*MessageError).Stronger(strongestError) {
@@ -16688,7 +16738,7 @@ func (msg *BGPUpdate) DecodeFromBytes(data []byte, options ...*MarshallingOption
 			}
 			return strongestError
 		}
-		data = data[p.Len(options...):]
+		data = data[p.Len():]
 		if e == nil || e.(*MessageError).ErrorHandling != ERROR_HANDLING_ATTRIBUTE_DISCARD {
 			msg.PathAttributes = append(msg.PathAttributes, p)
 		}
